@@ -152,6 +152,24 @@ theorem serialise_idempotent (n : Str) (attrs : List (Str × Str)) (cs : List Xm
     (XmlDoc.parseDoc (XmlDoc.serialize (.elem n attrs cs))).map XmlDoc.serialize = some (XmlDoc.serialize (.elem n attrs cs)) := by
   rw [XmlDocP.parseDoc_serialize n attrs cs hw]; rfl
 
+/-- The root-only parse (`parse_root`, which looks at the start tag alone) agrees with the full parse on the root's name and
+    attributes — for EVERY document text the full parse accepts, not only for serialisations. -/
+theorem root_only_agrees_with_full_parse (s : Str) (t : XmlDoc.XNode) (h : XmlDoc.parseDoc s = some t) (hs : s.head? = some '<') :
+    XmlDoc.parseRoot s = XmlDoc.rootOf t :=
+  XmlDocP.parseRoot_agrees s t h hs
+
+/-- In particular on whatever the serialiser wrote: name and attributes (in order, values unescaped) of the tree's root. -/
+theorem root_of_serialisation (n : Str) (attrs : List (Str × Str)) (cs : List XmlDoc.XNode)
+    (hw : XmlDoc.wf (.elem n attrs cs) = true) :
+    XmlDoc.parseRoot (XmlDoc.serialize (.elem n attrs cs)) = some (n, attrs) := by
+  have h := XmlDocP.parseDoc_serialize n attrs cs hw
+  have hs : (XmlDoc.serialize (.elem n attrs cs)).head? = some '<' := by
+    cases cs <;> simp [XmlDoc.serialize]
+  rw [XmlDocP.parseRoot_agrees _ _ h hs]; rfl
+
+example : XmlDoc.parseRoot "<rpc-reply message-id=\"a&lt;1\" x=\"2\"><ok/><never closed".toList
+    = some ("rpc-reply".toList, [("message-id".toList, "a<1".toList), ("x".toList, "2".toList)]) := by decide +kernel
+
 /-- Character data written by the serialiser is read back unaltered by any XML parser (from C07). -/
 theorem chardata_roundtrip (s : Str) : parseText (escapeText s) = some s ∧ parseAttr (escapeAttr s) = some s :=
   ⟨XmlTextP.parseText_escapeText s, XmlTextP.parseAttr_escapeAttr s⟩
